@@ -1,7 +1,7 @@
 SPECIFICATION Spec
 CONSTANTS
   W = @W@
-  Mode = "@MODE@"
+  Modes = @MODES@
   Seed = @SEED@
   Emit = @EMIT@
 INVARIANTS RegBounds OrderFree UnionLaws CorruptIsMarshal EmitCase
